@@ -116,12 +116,14 @@ func getProp(id string) *core.Prop {
 // wireClock puts the library's clock reads (redirected by the instrumenter) on the simulated clock.
 func wireClock() {
 	verifsim.ClockHook = simrt.Now
+	verifsim.OrderHook = simrt.MapOrder
 	verifsim.SleepHook = simrt.Sleep
 	simrt.ClockReads = &verifsim.ClockReads
 }
 
 func runOne(p *core.Prop, c *core.Ctx) {
 	simrt.ResetClock(c.Rec.Seed)
+	simrt.ResetOrder(c.Rec.Seed)
 	if p.ID == "C04" {
 		// the time bound of a decode also counts the bytes moved and scanned by bulk primitives
 		verifsim.WorkHook = simrt.Work
@@ -383,6 +385,7 @@ func cmdEnum(args []string) {
 	bbox := fs.String("blackbox", "", "shared file receiving the input of the operation in flight")
 	stall := fs.Duration("stall", 0, "end the process when a group makes no progress for this long")
 	until := fs.Int64("until", 0, "stop enumerating after this unix time in ns")
+	fromGroup := fs.Int("from-group", 0, "skip the groups below this index (enumerated by an earlier process of this shard)")
 	fs.Parse(args)
 	p := getProp(*prop)
 	if *bbox != "" {
@@ -414,7 +417,7 @@ func cmdEnum(args []string) {
 		defer hw.Flush()
 	}
 	expired := false
-	e := &core.EnumCtx{Tier: *tier, Shard: *shard, Shards: *shards, Steps: &simrt.Steps, Sum: &sum,
+	e := &core.EnumCtx{Tier: *tier, Shard: *shard, Shards: *shards, Steps: &simrt.Steps, Sum: &sum, FromGroup: *fromGroup,
 		Expired: func() bool {
 			if expired {
 				return true
